@@ -363,13 +363,21 @@ def close32(a, b):
     return a.shape == b.shape and bool(np.all(np.abs(a - b) <= 1e-6 * np.maximum(1.0, np.abs(b))))
 
 
-def write_gctf(path, U, V, A, PH, extra):
+def write_gctf(path, U, V, A, PH, extra, order=0):
+    """columns are named, so their order in the file carries no meaning: order picks one of several layouts"""
     cols = ["rlnMicrographName"] * extra + ["rlnDefocusU", "rlnDefocusV", "rlnDefocusAngle"] + (["rlnPhaseShift"] if PH is not None else []) + (["rlnCtfFigureOfMerit"] if extra else [])
+    data = {"rlnMicrographName": ["img_%03d.mrc" % i for i in range(len(U))], "rlnDefocusU": ["%.6f" % v for v in U], "rlnDefocusV": ["%.6f" % v for v in V],
+            "rlnDefocusAngle": ["%.6f" % v for v in A], "rlnPhaseShift": ["%.6f" % v for v in PH] if PH is not None else None, "rlnCtfFigureOfMerit": ["0.123"] * len(U)}
+    if order == 1:
+        cols = cols[::-1]
+    elif order == 2:
+        cols = [c for c in cols if c in ("rlnDefocusAngle", "rlnPhaseShift")] + [c for c in cols if c not in ("rlnDefocusAngle", "rlnPhaseShift")]
+    elif order == 3:
+        cols = [c for c in cols if c == "rlnDefocusV"] + [c for c in cols if c != "rlnDefocusV"]
     with open(path, "w") as f:
         f.write("\ndata_\n\nloop_\n" + "".join(f"_{c} #{i + 1}\n" for i, c in enumerate(cols)))
         for i in range(len(U)):
-            vals = (["img_%03d.mrc" % i] if extra else []) + ["%.6f" % U[i], "%.6f" % V[i], "%.6f" % A[i]] + (["%.6f" % PH[i]] if PH is not None else []) + (["0.123"] if extra else [])
-            f.write(" ".join(vals) + "\n")
+            f.write(" ".join(data[c][i] for c in cols) + "\n")
 
 
 def write_ctffind(path, U, V, A, PH, ncomments):
@@ -468,7 +476,8 @@ def run_loaders(c, out):
         A = np.round(rng.uniform(-90, 90, n), 3)
         PH = np.round(rng.uniform(0, 180, n), 3) if (c["phase"] or which == "ctffind4") else None
         if which == "gctf":
-            write_gctf("ctf.star", U, V, A, PH, 1 if c["extra_cols"] else 0)
+            write_gctf("ctf.star", U, V, A, PH, 1 if c["extra_cols"] else 0, order=c["seed"] % 4)
+            out.label(f"gctf_column_layout:{c['seed'] % 4}")
             ok, r = call(out, "gctf_read", lambda: ioutils.defocus_load("ctf.star", "gctf"))
             tol = lambda a_, b_: bool(np.all(np.abs(np.asarray(a_, float) - b_) <= 1e-9 * np.maximum(1.0, np.abs(b_))))
         else:
